@@ -126,6 +126,9 @@ func c13reqURLPtr(bi *c13builders, v ssa.Value, depth int, seen map[ssa.Value]bo
 		eachInstr(sc, func(i ssa.Instruction) {
 			if r, ok := i.(*ssa.Return); ok && !found && r.Parent() == sc {
 				for _, res := range r.Results {
+					if isNilConst(res) || knownNil(r.Block(), sameVal(res)) {
+						continue // `if u == nil { return u }` of a cloning helper hands back nil, not the request's URL
+					}
 					if c13reqURLPtr(bi, res, depth+1, seen) {
 						found = true
 					}
@@ -190,7 +193,7 @@ func runC13R1(c *Ctx) {
 			}
 		}
 	})
-	c.atLeast(rule, "reads of the request URL's Path in the region of Table.Lookup and the location builder", nReads, 2)
+	c.atLeast(rule, "reads of the request URL's Path in the region of Table.Lookup and the location builder", nReads, 1)
 }
 
 // ---- C13.C2 -------------------------------------------------------------------------------------------------------
@@ -318,12 +321,12 @@ func runC13C2(c *Ctx) {
 		}
 		var code ssa.Value
 		switch {
-		case c13targetField(bo.X, "RedirectCode"):
+		case c13targetFieldVal(bo.X, "RedirectCode"): // the field, or the parameter of a predicate helper that is handed it
 			code = bo.X
 			if _, isK := constInt(bo.Y); !isK {
 				return
 			}
-		case c13targetField(bo.Y, "RedirectCode"):
+		case c13targetFieldVal(bo.Y, "RedirectCode"):
 			code = bo.Y
 			if _, isK := constInt(bo.X); !isK {
 				return
